@@ -33,6 +33,8 @@ pub struct Oracles {
     pub ownership: bool,
     /// a panic in an admissible step is a failure of this property (otherwise the case is discarded and counted)
     pub panics_fail: bool,
+    /// arrays the model says hold a gradient hold one (values are not judged): nothing but a clear removes it
+    pub grad_presence: bool,
 }
 
 #[derive(Clone, Debug)]
@@ -322,6 +324,12 @@ impl Interp {
                 return Err(o);
             }
         }
+        // flag changes and clones never touch a stored gradient (checked where presence is judged)
+        if matches!(s, Step::Flag { .. } | Step::Clone { .. } | Step::Drop { .. }) && self.or.grad_presence {
+            if let Err(o) = self.check_grads(idx, s) {
+                return Err(o);
+            }
+        }
         if matches!(s, Step::ClearGrad { .. } | Step::Update { .. }) && self.or.grad_absence {
             if let Err(o) = self.check_grads(idx, s) {
                 return Err(o);
@@ -342,6 +350,9 @@ impl Interp {
             }
         }
         if self.or.immutable {
+            if let Some(m) = self.ex.seed_mutations.first() {
+                return Err(fail("mutated", "seed".to_string(), format!("after step {} ({}): {}", idx, step_describe(s, &self.m), m), &self.stats));
+            }
             for h in 0..self.ex.slots.len() {
                 if let (Some(a), Some(sn)) = (&self.ex.slots[h], &self.snaps[h]) {
                     self.stats.snapshots_compared += 1;
@@ -464,7 +475,7 @@ impl Interp {
                     }
                 }
                 (GradSlot::Known { .. }, None) => {
-                    if want_value {
+                    if want_value || (self.or.grad_presence && !node.has_graph()) {
                         return Err(mk("missing-gradient", format!("after step {} ({}): {} holds no gradient", idx, step_describe(s, &self.m), what()), &self.stats));
                     }
                 }
@@ -519,7 +530,7 @@ pub fn step_describe(s: &Step, m: &RefState) -> String {
 pub fn step_refs(s: &Step) -> Vec<usize> {
     match s {
         Step::Apply(a) => a.args.clone(),
-        Step::Copy { h } | Step::ProbeSole { h } | Step::Flag { h, .. } | Step::Backward { h, .. } | Step::ReadGrad { h } | Step::ClearGrad { h, .. } | Step::Clone { h } | Step::Drop { h } => vec![*h],
+        Step::Copy { h } | Step::RefusedOp { h } | Step::ProbeSole { h } | Step::Flag { h, .. } | Step::Backward { h, .. } | Step::ReadGrad { h } | Step::ClearGrad { h, .. } | Step::Clone { h } | Step::Drop { h } => vec![*h],
         Step::Rebind { target, spec } => {
             let mut v = spec.args.clone();
             v.push(*target);
